@@ -10,6 +10,7 @@ mod apps;
 mod c01;
 mod c02;
 mod c03;
+mod c05;
 mod c09;
 mod c12;
 mod c13;
@@ -26,6 +27,7 @@ fn main() {
         "C01" | "C04" => c01::run_case,
         "C02" => c02::run_case,
         "C03" => c03::run_case,
+        "C05" | "C06" => c05::run_case,
         "C09" => c09::run_case,
         "C12" => c12::run_case,
         "C13" => c13::run_case,
